@@ -28,9 +28,17 @@ type c03Case struct {
 	Depth2 bool     `json:"depth2"`
 	// Piece > 0: size of the pieces in which an out-of-order merge copies the chunk of an untouched series (default 512 KiB)
 	Piece int `json:"piece,omitempty"`
+	// injected level layout (c03_inject_test.go): Inject = true, Levels = level of the k-th ordered file, Parquet =
+	// [data.parquet-task] tssp-to-parquet-level during the reorganisation and the recoveries, Prefix unused
+	Inject  bool  `json:"inject,omitempty"`
+	Levels  []int `json:"levels,omitempty"`
+	Parquet int   `json:"parquet_level,omitempty"`
 }
 
 func (c c03Case) key() string {
+	if c.Inject {
+		return fmt.Sprintf("injected levels %v, tssp-to-parquet-level %d | %s", c.Levels, c.Parquet, c.Reorg)
+	}
 	k := strings.Join(c.Prefix, " ") + " | " + c.Reorg
 	if c.Piece > 0 {
 		k += fmt.Sprintf(" [copy pieces of %d bytes]", c.Piece)
@@ -192,6 +200,11 @@ func c03Recover(rep *kit.Report, c c03Case, im vImage, m vModel, work string, de
 		return
 	}
 	layout1 := v.Layout()
+	if kind, detail := c03CheckWalkAfterRecovery(v); kind != "" {
+		_ = v.Close()
+		rep.Violation(kind, c.key(), fmt.Sprintf("crash %s: %s", where, detail), c)
+		return
+	}
 	if left := c03Leftovers(work); len(left) > 0 {
 		rep.Count("images_with_ignored_leftover_files", 1)
 	}
@@ -251,7 +264,11 @@ func TestVerifC03(t *testing.T) {
 		if err := kit.LoadReplay(&c); err != nil {
 			t.Fatal(err)
 		}
-		c03Run(rep, scratch, c, nil)
+		if c.Inject {
+			c03RunInjected(rep, scratch, c, nil)
+		} else {
+			c03Run(rep, scratch, c, nil)
+		}
 		return
 	}
 	ops := []string{"Wa", "Wc", "Wd", "We", "Wh", "F"}
@@ -263,6 +280,13 @@ func TestVerifC03(t *testing.T) {
 	rep.Note("prefix alphabet=%v max prefix length=%d reorgs=%v", ops, maxLen, c03Reorgs)
 	seen := map[uint64]bool{}
 	idx := 0
+	if os.Getenv("VERIF_C03_INJECT") != "0" {
+		// first, so that a deadline on a loaded machine cuts the tail of the older family, which is the larger one
+		c03InjectedFamily(rep, scratch, &idx)
+	}
+	if os.Getenv("VERIF_C03_ONLY") == "inject" { // development aid: the injected family alone
+		return
+	}
 	for l := 2; l <= maxLen; l++ {
 		kit.Sequences(len(ops), l, func(seq []int) bool {
 			names := make([]string, l)
